@@ -31,6 +31,7 @@ func main() {
 	keep := fs.Bool("keep", false, "keep the work directory")
 	file := fs.String("file", "", "replay file")
 	nprog := fs.Int("programs", 0, "number of compiled programs (0 = tier default)")
+	index := fs.Int("index", 0, "idl: print the i-th program of the value suite")
 	nwild := fs.Int("wild", -1, "number of thriftgo-only programs (-1 = tier default)")
 	fs.Parse(os.Args[2:])
 	switch os.Args[1] {
@@ -40,7 +41,11 @@ func main() {
 			os.Exit(3)
 		}
 	case "idl":
-		p := idlgen.Generate(vl.NewRng(vl.NewRng(*seed).U64()), valueConfig(vl.NewRng(*seed), 0))
+		r := vl.NewRng(vl.NewRng(*seed).U64())
+		var p *idlgen.Program
+		for i := 0; i <= *index; i++ { // the programs of the value suite are drawn one after the other from one stream
+			p = idlgen.Generate(r, valueConfig(r, i))
+		}
 		files := p.Render()
 		var names []string
 		for n := range files {
